@@ -43,6 +43,21 @@ def main(argv=None):
     if a.replay:
         rec = json.load(open(a.replay))
         print(json.dumps({k: rec.get(k) for k in ('property', 'key', 'what', 'obligation', 'witness', 'native_outcome')}, indent=1))
+        if rec.get('obligation') and not str(rec.get('key', '')).startswith('b:'):
+            # a failed obligation of a deductive part (P / X / T / F / H): regenerate the obligations of those parts from the current tree and see
+            # whether the same one fails again (the recorded counter-model / witness is printed above)
+            import contextlib
+            import io
+            run = Run(pid, mod.LEVEL, a.tier)
+            run.only = {'P', 'X', 'T', 'F', 'H'}
+            buf = io.StringIO()
+            with contextlib.redirect_stdout(buf):
+                mod.main(run)
+            hit = [v for v in run.violations if v['key'] == rec['key']] or [k for k in run.known_hits if k.get('key') == rec['key']]
+            if hit:
+                print('obligation fails again on this tree:', hit[0].get('what', '')[:300])
+            print('REPLAY', 'violation reproduced' if hit else 'property holds on this tree for the witness (the obligation is discharged)')
+            return 1 if hit else 0
         if hasattr(mod, 'replay'):
             env.setup()
             ok = mod.replay(rec)
